@@ -176,33 +176,41 @@ def _hash_files(paths):
     return h.hexdigest()
 
 
-def ocaml_build(drivers=('prim_driver',)):
-    """Extract the model (needs the model .vo files) and compile the drivers. Returns (ok, log)."""
+def ocaml_build_unit(unit, extract_v, drivers):
+    """Extract one unit of the model (coq/Extract/<extract_v>, which must write "model.ml") into
+    build/ext_<unit>/ and compile its drivers (ocaml/<driver>.ml, linked with ocaml/conv.ml).
+    Returns (ok, log). Cached on the hash of every model source, the extraction file and the drivers."""
     oc = os.path.join(VERIF, 'ocaml')
-    with Lock('ocaml'):
-        srcs = [os.path.join(COQ, f) for f in coq_project_files() if not f.startswith('Props/') and 'Proof' not in f]
-        srcs += [os.path.join(COQ, 'Extract', 'Extract.v')]
-        srcs += [os.path.join(oc, f) for f in os.listdir(oc) if f.endswith('.ml') and f not in ('model.ml',)]
+    with Lock('ocaml_' + unit):
+        srcs = [os.path.join(COQ, f) for f in coq_project_files() if not f.startswith('Props/')]
+        srcs += [os.path.join(COQ, 'Extract', extract_v), os.path.join(oc, 'conv.ml')]
+        srcs += [os.path.join(oc, d + '.ml') for d in drivers]
         key = _hash_files([s for s in srcs if os.path.exists(s)])
-        stamp = os.path.join(BUILD, 'ocaml.stamp')
+        stamp = os.path.join(BUILD, f'ocaml_{unit}.stamp')
         if os.path.exists(stamp) and open(stamp).read() == key and all(
                 os.path.exists(os.path.join(BUILD, d)) for d in drivers):
             return True, 'cached'
-        ext = os.path.join(BUILD, 'extracted')
+        ext = os.path.join(BUILD, 'ext_' + unit)
         os.makedirs(ext, exist_ok=True)
-        rc, out = sh(f'timeout 600 coqc -R {COQ} Stef {COQ}/Extract/Extract.v', cwd=ext, timeout=660)
-        sh(f'rm -f {COQ}/Extract/*.vo {COQ}/Extract/*.vok {COQ}/Extract/*.vos {COQ}/Extract/*.glob {COQ}/Extract/.*.aux')
+        rc, out = sh(f'timeout 900 coqc -R {COQ} Stef {COQ}/Extract/{extract_v}', cwd=ext, timeout=960)
+        base = extract_v[:-2]
+        sh(f'rm -f {COQ}/Extract/{base}.vo {COQ}/Extract/{base}.vok {COQ}/Extract/{base}.vos {COQ}/Extract/{base}.glob {COQ}/Extract/.{base}.aux')
         if rc != 0:
             return False, out
         log = out
         for d in drivers:
             rc, out = sh(f'cp {oc}/conv.ml {oc}/{d}.ml {ext}/ && cd {ext} && ocamlfind ocamlopt -package zarith -linkpkg -O2 -w -a '
-                         f'model.mli model.ml conv.ml {d}.ml -o {BUILD}/{d}', timeout=600)
+                         f'model.mli model.ml conv.ml {d}.ml -o {BUILD}/{d}', timeout=900)
             log += out
             if rc != 0:
                 return False, log
         open(stamp, 'w').write(key)
         return True, log
+
+
+def ocaml_build(drivers=('prim_driver', 'stream_driver')):
+    """the main unit: coq/Extract/Extract.v with the primitive and stream drivers"""
+    return ocaml_build_unit('main', 'Extract.v', tuple(drivers))
 
 
 # ---------------------------------------------------------------- Go
